@@ -52,10 +52,19 @@ def main():
         rid = f"{prefix}-r{k + offset}"
         meta = json.load(open(os.path.join(d, "meta.json")))
         sh(["git", "-C", wt, "checkout", "--", "discretisedfield"])
+        if "--rerecord" in sys.argv:
+            # the worktree was moved to a later commit (a `fix:` landed while the sub-agent worked): the demo records its
+            # reference values again on the clean tree before the change is applied
+            sh([PY, f"_ref{k}/demo.py", "--record"], cwd=wt)
         rc, o = sh(["git", "-C", wt, "apply", os.path.join(d, "patch.diff")])
         if rc != 0:
-            print(f"{rid}: patch does not apply: {o[:200]}")
-            continue
+            rc, o = sh(["git", "-C", wt, "apply", "--3way", os.path.join(d, "patch.diff")])
+            if rc != 0 or b"<<<<<<<" in open(os.path.join(wt, meta.get("files", ["discretisedfield/field.py"])[0]), "rb").read():
+                sh(["git", "-C", wt, "reset", "--hard", "-q"])
+                print(f"{rid}: patch does not apply: {o[:200]}")
+                continue
+            sh(["git", "-C", wt, "reset", "-q"])
+            open(os.path.join(d, "patch.diff"), "w").write(sh(["git", "-C", wt, "diff", "--", "discretisedfield"])[1])
         try:
             rc_demo, o_demo = sh([PY, f"_ref{k}/demo.py"], cwd=wt)
             tests_ok = None
